@@ -40,6 +40,8 @@ struct LoopThread {
 
 struct Ev {
   SignalEvent *ev = nullptr; int loop = 0; unsigned mask = 0; bool oneshot = false; bool enabled = false; bool alive = false;
+  int act = 0;   // what the event's callback does to the event itself: 0 nothing, 1 enable() (re-arms a one-shot event), 2 disable(), 3 disable() then enable()
+  std::atomic<int> act_failed{0};
   std::atomic<int> calls[kNSig]; std::atomic<int> wrong_thread{0}, wrong_signo{0};
   int expect[kNSig] = {0};
 };
@@ -88,7 +90,7 @@ std::string run(const Scenario &s, CaseInfo &info) {
   std::string err; char buf[300];
   int sentinel_expect[kNSig] = {0};
   bool nt_two_loops_one_sig = false, nt_resubscribe_after_zero = false; bool went_zero[kNSig] = {false};
-  int raises = 0, skipped_raises = 0, oneshot_fired = 0, nt_batches = 0, nt_bursts = 0;
+  int raises = 0, skipped_raises = 0, oneshot_fired = 0, nt_batches = 0, nt_bursts = 0, nt_rearm = 0, nt_self_disable = 0;
 
   auto subs_of = [&](int si) { int n = 0; for (int e = 0; e < nev; ++e) if (evs[e].alive && evs[e].enabled && (evs[e].mask >> si & 1)) n++; return n; };
   auto check_disposition = [&](const char *after) {
@@ -102,6 +104,7 @@ std::string run(const Scenario &s, CaseInfo &info) {
   auto check_counts = [&](const char *after) {
     for (int e = 0; e < nev && err.empty(); ++e) {
       if (evs[e].wrong_thread.load()) { snprintf(buf, sizeof buf, "after %s: event %d got a callback on a thread other than its loop's thread", after, e); err = buf; break; }
+      if (evs[e].act_failed.load()) { snprintf(buf, sizeof buf, "after %s: enable()/disable() called by event %d on itself inside its callback returned false", after, e); err = buf; break; }
       if (evs[e].wrong_signo.load()) { snprintf(buf, sizeof buf, "after %s: event %d got a callback for a signal it never subscribed", after, e); err = buf; break; }
       for (int i = 0; i < kNSig; ++i) if (evs[e].calls[i].load() != evs[e].expect[i]) {
         snprintf(buf, sizeof buf, "after %s: event %d (loop %d, %s, mask 0x%x) has %d callbacks for signal #%d, expected %d", after, e, evs[e].loop, evs[e].oneshot ? "one-shot" : "persistent", evs[e].mask, evs[e].calls[i].load(), i, evs[e].expect[i]); err = buf; break; }
@@ -117,6 +120,7 @@ std::string run(const Scenario &s, CaseInfo &info) {
       case NEW: {
         if (nev >= kMaxEvents) break;
         Ev &E = evs[nev]; E.loop = (int)op.in(0, 0, nloops - 1); E.mask = (unsigned)op.in(1, 1, (1 << kNSig) - 1); E.oneshot = op.in(2, 0, 3) == 0; E.alive = true; E.enabled = false;
+        { static const int kAct[8] = {0, 0, 0, 0, 1, 2, 3, 1}; E.act = kAct[op.in(3, 0, 7)]; }
         int e = nev; LoopThread *L = &lt[E.loop]; Ev *Ep = &E;
         L->call([&, e, L, Ep] {
           Ep->ev = L->loop->newSignalEvent("c04");
@@ -127,6 +131,8 @@ std::string run(const Scenario &s, CaseInfo &info) {
             if (std::this_thread::get_id() != L->tid) Ep->wrong_thread++;
             bool found = false; for (int i = 0; i < kNSig; ++i) if (sig_of(i) == signo && (Ep->mask >> i & 1)) { Ep->calls[i]++; found = true; }
             if (!found) Ep->wrong_signo++;
+            if (Ep->act == 2 || Ep->act == 3) { if (!Ep->ev->disable()) Ep->act_failed++; }
+            if (Ep->act == 1 || Ep->act == 3) { if (!Ep->ev->enable()) Ep->act_failed++; }
           });
         });
         nev++; break; }
@@ -202,6 +208,9 @@ std::string run(const Scenario &s, CaseInfo &info) {
             for (int e = 0; e < nev; ++e) if (evs[e].alive && evs[e].enabled && (evs[e].mask >> si & 1)) {
               evs[e].expect[si]++; if (!loops_seen[evs[e].loop]) { loops_seen[evs[e].loop] = true; nl++; }
               if (evs[e].oneshot) { evs[e].enabled = false; oneshot_fired++; }
+              // then its callback runs and may change the event's own subscription
+              if (evs[e].act == 2) { evs[e].enabled = false; nt_self_disable++; }
+              if (evs[e].act == 1 || evs[e].act == 3) { evs[e].enabled = true; if (evs[e].oneshot) nt_rearm++; }
             }
           if (nl >= 2) nt_two_loops_one_sig = true;
           if (orig_kind[si] >= 2) sentinel_expect[si]++;
@@ -240,6 +249,8 @@ std::string run(const Scenario &s, CaseInfo &info) {
   info.cls_if(skipped_raises > 0, "raise_skipped_default_action");
   info.cls_if(nt_batches > 0, "several_changes_in_one_loop_task");
   info.cls_if(nt_bursts > 0, "burst_of_deliveries_while_loops_busy");
+  info.cls_if(nt_rearm > 0, "oneshot_rearmed_in_its_own_callback");
+  info.cls_if(nt_self_disable > 0, "event_disabled_itself_in_its_callback");
   info.nontrivial = raises > 0 && nt_two_loops_one_sig && nt_resubscribe_after_zero;
   return "";
 }
@@ -247,7 +258,7 @@ std::string run(const Scenario &s, CaseInfo &info) {
 SubDef def = [] {
   SubDef d; d.name = "signals";
   d.op_names = {"cfg", "new", "enable", "disable", "destroy", "raise", "batch", "burst"};
-  d.op_arity = {7, 3, 1, 1, 1, 1, 9, 8};
+  d.op_arity = {7, 4, 1, 1, 1, 1, 9, 8};
   d.nt_rule = "history with a delivery that reaches subscribers in >= 2 loops and >= 1 unsubscribe-to-zero of a signal followed by a re-subscription of it";
   d.run = run;
 #ifndef VERIF_ENGINE_FUZZ
@@ -255,7 +266,7 @@ SubDef def = [] {
     auto ev = range(0, kMaxEvents - 1);
     auto mask = rc::gen::weightedOneOf<int64_t>({{3, oneOfValues({1, 2, 4, 3})}, {2, range(1, 63)}});
     auto opg = rc::gen::weightedOneOf<Op>({
-      {4, mkop(NEW, {range(0, kMaxLoops - 1), mask, range(0, 3)})},
+      {4, mkop(NEW, {range(0, kMaxLoops - 1), mask, range(0, 3), range(0, 7)})},
       {6, mkop(ENABLE, {ev})},
       {4, mkop(DISABLE, {ev})},
       {1, mkop(DESTROY, {ev})},
@@ -264,7 +275,7 @@ SubDef def = [] {
       {2, mkop(BURST, {range(2, 7), range(0, 2), range(0, 2), range(0, 2), range(0, 2), range(0, 2), range(0, kNSig - 1), range(0, kNSig - 1)})},
     });
     auto cfg = mkop(CFG, {rc::gen::weightedOneOf<int64_t>({{1, rc::gen::just<int64_t>(1)}, {3, range(2, kMaxLoops)}}), range(0, 4), range(0, 4), range(0, 4), range(0, 4), range(0, 4), range(0, 4)});
-    auto mk = mkop(NEW, {range(0, kMaxLoops - 1), mask, range(0, 3)});
+    auto mk = mkop(NEW, {range(0, kMaxLoops - 1), mask, range(0, 3), range(0, 7)});
     auto en = mkop(ENABLE, {ev});
     return scenarioOf(fixedOps({cfg, mk, mk, mk, mk, en, en, en}), opsOf(opg));
   };
